@@ -124,7 +124,9 @@ Qed.
 Definition concepts_agree (k : cfg) (t : cty) : Prop :=
   integral_c_m k t = std_is_integral t /\ floating_point_c_m t = std_is_floating_point t
   /\ signed_integral_c_m k t = (std_is_integral t && std_is_signed t)%bool
-  /\ unsigned_integral_c_m k t = (std_is_integral t && negb (std_is_signed t))%bool.
+  /\ unsigned_integral_c_m k t = (std_is_integral t && negb (std_is_signed t))%bool
+  /\ referenceable_c_m t = negb (std_is_void t)
+  /\ (referenceable t = true -> referenceable_c_m t = true).
 
 Lemma integral_unsigned : forall t, wf t = true -> std_is_integral t = true ->
   std_is_unsigned t = negb (std_is_signed t).
@@ -140,9 +142,20 @@ Proof.
     unsigned_integral_c_m.
   rewrite is_integral_m_spec, is_floating_point_m_spec, is_signed_m_spec, is_unsigned_m_spec by assumption.
   repeat split; try reflexivity.
-  destruct (std_is_integral t) eqn:E; [|reflexivity].
-  cbn [andb]. apply integral_unsigned; assumption.
+  - destruct (std_is_integral t) eqn:E; [|reflexivity].
+    cbn [andb]. apply integral_unsigned; assumption.
+  - unfold referenceable_c_m. rewrite is_void_m_spec by assumption. reflexivity.
+  - unfold referenceable_c_m. rewrite is_void_m_spec by assumption.
+    intros R.
+    shapes t H; try reflexivity; try (da; reflexivity); try (destruct p; reflexivity);
+      vm_compute in R; discriminate R.
 Qed.
+
+(* the etl-only concept `referenceable` ("not void") is weaker than [defns.referenceable]: it also
+   accepts function types with cv- or ref-qualifiers, to which no reference can be formed *)
+Lemma etl_referenceable_is_not_defns_referenceable :
+  exists t, wf t = true /\ referenceable_c_m t = true /\ referenceable t = false.
+Proof. exists (Fn Void [] true false RQnone false false). vm_compute. repeat split; reflexivity. Qed.
 
 (** * exactly one primary category *)
 Definition primary_m (k : cfg) (t : cty) : list bool :=
